@@ -342,7 +342,7 @@ def enum_structs(tier):
     g2_types = ["i32", "String"] if quick else types
     for ext in EXTS:
         for ty in g2_types:
-            for a in legal_attr_sets(ty, [5, 20000], with_split=True):
+            for a in legal_attr_sets(ty, [5, 20000], with_split=ty in ("i32", "String")):
                 if not a or a == dict(optional=True) and TYPES[ty].get("needs_optional"):
                     continue  # already in G1
                 for nm in ([n1, n2] if a.get("hashid") else [n1]):
@@ -366,8 +366,8 @@ def enum_structs(tier):
     if not quick:
         a2 += [dict(key=True, id=5), dict(optional=True, id=7), dict(key=True, hashid=True), dict(id=0), dict(id=1),
                dict(key=True, id=5, split=True)]
-    pairs = [("i32", "String")] if quick else [("i32", "String"), ("String", "i32"), ("u8", "i64"), ("Inner", "Vec<i32>")]
-    for ext in EXTS:
+    pairs = [("i32", "String")] if quick else [("i32", "String"), ("Inner", "Vec<i32>")]
+    for ext in ((None, "mutable") if quick else EXTS):
         for t1, t2 in pairs:
             for x in a2:
                 for y in a2:
@@ -544,6 +544,7 @@ HEADER = "#![allow(dead_code, unused_imports, unused_variables, unused_mut, non_
 def gen_module(idx, d):
     mod = pcc.mod_name(idx)
     s = HEADER + d.text() + "\n\npub fn check(o: &mut crate::rt::Out) {\n"
+    s += "    o.line(\"{\\\"d\\\":\\\"%s\\\",\\\"k\\\":\\\"hash\\\",\\\"h\\\":\\\"%s\\\"}\");\n" % (mod, pcc.text_hash(d.text()))
     s += "    crate::rt::describe::<T>(o, \"%s\", \"T\");\n" % mod
     if isinstance(d, Struct):
         for k, m in enumerate(d.members):
@@ -588,46 +589,58 @@ def gen_module(idx, d):
     return s
 
 
+def pkg_name(ident):
+    # package/binary names are unique per tier and repo so that the crates do not overwrite each other's
+    # executables in the shared target directory
+    return "progcheck_%s%s" % (ident, pcc.repo_tag())
+
+
+BIN_SIZE = 700  # declarations per binary; cargo compiles the binaries of the crate in parallel
+
+
 def write_crate(ident, decls, excluded):
     crate = pcc.gen_dir(ident)
     os.makedirs(os.path.join(crate, "src", "d"), exist_ok=True)
+    groups = pcc.chunks(range(len(decls)), BIN_SIZE)
     cargo = """[package]
-name = "progcheck_c40"
+name = "%s"
 version = "0.0.0"
 edition = "2024"
+autobins = false
 
 [workspace]
 
-[[bin]]
-name = "progcheck_c40"
-path = "src/main.rs"
-
-[dependencies]
+%s[dependencies]
 dust_dds = { path = "%s/dds" }
 
 [profile.dev]
 debug = 0
 opt-level = 0
-""" % pcc.repo()
+""" % (pkg_name(ident), pcc.bin_sections(pkg_name(ident), len(groups)), pcc.repo())
     pcc.write_if_changed(os.path.join(crate, "Cargo.toml"), cargo)
     pcc.copy_lock(crate)
-    pcc.write_if_changed(os.path.join(crate, "src", "rt.rs"), pcc.read_rt())
-    pcc.write_if_changed(os.path.join(crate, "src", "support.rs"), SUPPORT_RS)
+    top = {"rt.rs": pcc.read_rt(), "support.rs": SUPPORT_RS}
     files = {}
-    mods, calls = [], []
-    for i, d in enumerate(decls):
-        if i in excluded:
-            continue
-        m = pcc.mod_name(i)
-        files[m + ".rs"] = gen_module(i, d)
-        mods.append("    pub mod %s;" % m)
-        calls.append("    rt::guarded(&mut o, \"%s\", d::%s::check);" % (m, m))
+    for k, group in enumerate(groups):
+        mods, calls = [], []
+        for i in group:
+            if i in excluded:
+                continue
+            m = pcc.mod_name(i)
+            files[m + ".rs"] = gen_module(i, decls[i])
+            mods.append("    pub mod %s;" % m)
+            calls.append("    rt::guarded(&mut o, \"%s\", d::%s::check);" % (m, m))
+        top["b%02d.rs" % k] = "#![allow(dead_code)]\nmod rt;\nmod support;\nmod d {\n%s\n}\n\nfn main() {\n" \
+            "    let path = std::env::args().nth(1).expect(\"out file\");\n    rt::quiet_panics();\n" \
+            "    let mut o = rt::Out::new(&path);\n%s\n    o.line(\"{\\\"k\\\":\\\"done\\\"}\");\n    o.flush();\n}\n" \
+            % ("\n".join(mods), "\n".join(calls))
     pcc.sync_dir(os.path.join(crate, "src", "d"), files)
-    main = "#![allow(dead_code)]\nmod rt;\nmod support;\nmod d {\n%s\n}\n\nfn main() {\n" \
-           "    let path = std::env::args().nth(1).expect(\"out file\");\n    rt::quiet_panics();\n" \
-           "    let mut o = rt::Out::new(&path);\n%s\n    o.line(\"{\\\"k\\\":\\\"done\\\"}\");\n    o.flush();\n}\n" \
-           % ("\n".join(mods), "\n".join(calls))
-    pcc.write_if_changed(os.path.join(crate, "src", "main.rs"), main)
+    for name in os.listdir(os.path.join(crate, "src")):
+        p = os.path.join(crate, "src", name)
+        if os.path.isfile(p) and name not in top:
+            os.remove(p)
+    for name, content in top.items():
+        pcc.write_if_changed(os.path.join(crate, "src", name), content)
     return crate
 
 
@@ -650,9 +663,9 @@ def cmp_type(exp, act):
 
 
 def ext_class(d):
-    """Member-level signatures use 'final' for both `extensibility = "final"` and no extensibility attribute
-    (the documented default); whether the default really is final is checked by the `extensibility` clause."""
-    return ("tuple/" if d.tuple else "") + (d.ext or "final")
+    """Member-level signatures only distinguish mutable from non-mutable (none/final/appendable behave alike for
+    members); the extensibility itself is checked by the `extensibility` clause with the exact class."""
+    return ("tuple/" if d.tuple else "") + ("mutable" if d.ext == "mutable" else "non-mutable")
 
 
 def split_lost(m):
@@ -677,9 +690,15 @@ def member_shape(d, i, clause):
     defect maps to few signatures."""
     m = d.members[i]
     lost = split_lost(m)
-    if lost is not None:
+    relevant = {"member-id": ("id", "hashid"), "key-flag": ("key",), "optional-flag": ("opt",),
+                "must-understand-flag": ("key",)}.get(clause)
+    if lost is not None and (relevant is None or any(x in lost.split("+") for x in relevant)):
         return "split-attrs/%s/lost-%s" % (ext_class(d), lost)
-    if clause == "member-id":
+    decl_lost = [split_lost(x) for x in d.members if split_lost(x) is not None]
+    if lost is None and decl_lost and clause in ("member-id", "accessor-consistency"):
+        # consequence of a *different* member of the declaration having lost its attributes
+        return "split-attrs/%s/lost-%s/follow-on" % (ext_class(d), decl_lost[0])
+    if clause in ("member-id", "accessor-consistency"):
         s = "%s/%s" % (ext_class(d), m.idkind() or "auto")
         if m.idkind() is None:
             prev = [p.idkind() for p in d.members[:i] if p.idkind()]
@@ -744,7 +763,7 @@ def check_struct(d, text, recs, F, viol):
                           "member #%d `%s` %s: expected %r, type reports %r" % (i, em["name"], what, e, g))
                     viol.add("member-kind")
                 if am.get("by_name_id") != am.get("id") or am.get("by_id_name") != am.get("name"):
-                    F.add("accessor-consistency", member_shape(d, i, "member-id"), text,
+                    F.add("accessor-consistency", member_shape(d, i, "accessor-consistency"), text,
                           "member #%d: get_member_by_name(%r).id=%r, get_member(%r).name=%r"
                           % (i, am.get("name"), am.get("by_name_id"), am.get("id"), am.get("by_id_name")))
                     viol.add("accessor-consistency")
@@ -780,7 +799,9 @@ def check_struct_rt(d, text, recs, act_ids, F, viol):
                     continue
             exp_ids.add(act_ids[k])
         if set(r["ids"]) != exp_ids:
-            F.add("dynamic-ids", rshape, text,
+            dshape = rshape if rshape.startswith("split-attrs") else \
+                "%s/%s" % (ext_class(d), "|".join(sorted(set(member_role(m) for m in d.members))))
+            F.add("dynamic-ids", dshape, text,
                   "value %s: dynamic data holds member ids %s, expected %s (ids as published by the type; "
                   "non-serialized and absent optional members must not be stored)" % (r["val"], sorted(r["ids"]), sorted(exp_ids)))
             viol.add("dynamic-ids")
@@ -915,7 +936,7 @@ def run(tier, seed, result):
     texts = [d.text() for d in decls]
     ident = "c40_%s" % tier
     timeout_build = 600 if tier == "quick" else 3000
-    b = pcc.build_with_bisect(lambda ex: write_crate(ident, decls, ex), len(decls), "progcheck_c40", timeout_build)
+    b = pcc.build_with_bisect(lambda ex: write_crate(ident, decls, ex), len(decls), pkg_name(ident), timeout_build)
     F = pcc.Findings("C40")
     distinct = set()
     evaluations = 0
@@ -923,7 +944,8 @@ def run(tier, seed, result):
                             "build_rounds": b["rounds"], "repo": pcc.repo()})
     for i, msgs in sorted(b["excluded"].items()):
         d = decls[i]
-        F.add("does-not-compile", "%s/%s" % (d.shape(), d.types()), texts[i], "rustc: " + " | ".join(msgs[:3]))
+        F.add("does-not-compile", decl_shape_rt(d) if isinstance(d, Struct) else "%s/%s" % (d.shape(), d.types()),
+              texts[i], "rustc: " + " | ".join(msgs[:3]))
         distinct.add("%s/does-not-compile" % d.shape())
         evaluations += 1
     if not b["ok"]:
@@ -953,6 +975,8 @@ def run(tier, seed, result):
             e["crash"] = rec.get("panic")
         elif rec["k"] == "end":
             e["end"] = True
+        elif rec["k"] == "hash":
+            e["hash"] = rec.get("h")
     if not done:
         result["machinery_error"] = "generated program did not finish (rc=%s): %s" % (r["rc"], r["stderr_tail"][-500:])
     samples = []
@@ -961,6 +985,10 @@ def run(tier, seed, result):
             continue
         recs = by.get(pcc.mod_name(i), {"rt": []})
         viol = set()
+        if recs.get("hash") != pcc.text_hash(texts[i]):
+            result["machinery_error"] = result["machinery_error"] or (
+                "records of %s do not belong to the declaration that was generated (stale binary?)" % pcc.mod_name(i))
+            continue
         if isinstance(d, Struct):
             act_ids = check_struct(d, texts[i], recs, F, viol)
             evaluations += 1
